@@ -8,7 +8,7 @@ WT=/tmp/confirm-$ID
 git -C /repo worktree remove --force $WT 2>/dev/null
 git -C /repo worktree add -q $WT HEAD || exit 2
 cd $WT
-cp "$SD/demo_test.go" "$PKG/zz_seed_demo_test.go"
+mkdir -p "$PKG"; cp "$SD/demo_test.go" "$PKG/zz_seed_demo_test.go"
 echo "--- demo WITHOUT change (expect pass)"
 TMPDIR=$(mktemp -d) go test -mod=mod -vet=off -count=1 $LD -run "$RUN" ./$PKG/ 2>&1 | tail -3
 git apply "$SD/patch.diff" || { echo "PATCH FAILED"; exit 2; }
